@@ -467,6 +467,17 @@ def memo_obligations(prog, rule, classes, skip=("__init__", "pass_spatial_data",
             if mname in skip or not fn.args.args or any(ast.unparse(d) in ("staticmethod", "classmethod") for d in fn.decorator_list):
                 continue
             o = refresh_obligation(prog, rule, ci.name, mname)
+            if not o.ok and any(o.construct == q or o.construct.startswith(q + "[") for q in getattr(prog, "residue", {})):
+                # the method was changed beyond what the normaliser undoes (a new helper inlined into it): ask the same question of
+                # the class as written - the guard, its key and who owns the key do not depend on how the method is spelled
+                raw = prog.as_written()
+                rci = raw.classes.get(ci.name)
+                for rm, rfn in (rci.methods.items() if rci is not None else ()):
+                    if rm in skip or not rfn.args.args or any(ast.unparse(d) in ("staticmethod", "classmethod") for d in rfn.decorator_list):
+                        continue
+                    ro = refresh_obligation(raw, rule, ci.name, rm)
+                    if not ro.ok and not any(x.construct == ro.construct for x in out):
+                        out.append(ro)
             if o.slots.get("conditional") or not o.ok:
                 out.append(o)
     return out
@@ -565,7 +576,7 @@ def stored_state_obligations(prog, rule, sites, what, scalar_ok=True):
     """One obligation per (class, method, roots, paths): inside the method no object stored in / reached from the named roots
     (and, if `paths` is given, only those access paths) is updated in place through a local alias, an element or a view
     (see own.state_sinks).  `roots` maps local names (the receiver, a parameter) to labels."""
-    from ..own import state_sinks
+    from ..own import state_sinks, component_table
     from ..model import qual
     out = []
     for ci, fn, roots, paths in sites:
@@ -575,7 +586,8 @@ def stored_state_obligations(prog, rule, sites, what, scalar_ok=True):
             for c in reversed(prog.mro(ci)):
                 methods.update(c.methods)
             methods.pop(fn.name, None)
-        hits = [h for h in state_sinks(fn, roots, methods=methods) if paths is None or h[0] in paths]
+        comps = component_table(prog, exclude=prog.mro(ci)) if ci is not None else None
+        hits = [h for h in state_sinks(fn, roots, methods=methods, components=comps) if paths is None or h[0] in paths]
         if scalar_ok:
             hits = [h for h in hits if not _scalar_attr(prog, h[0])]
         msg = ""
